@@ -4583,9 +4583,22 @@ class NameCheckVisitor(node_visitor.ReplacingNodeVisitor):
 
     def visit_Try(self, node: TryNode, *, is_try_star: bool = False) -> None:
         if node.finalbody:
-            with self.scopes.subscope() as failure_scope:
-                with self.scopes.suppressing_subscope() as success_scope:
-                    self.visit_try_except(node, is_try_star=is_try_star)
+            with self.scopes.current_scope().finally_scope() as leaving_scopes:
+                with self.scopes.subscope() as failure_scope:
+                    with self.scopes.suppressing_subscope() as success_scope:
+                        self.visit_try_except(node, is_try_star=is_try_star)
+
+            # A break or continue in the try statement runs the finally clause too
+            for leaving_scope in leaving_scopes:
+                marker = leaving_scope.pop(LEAVES_LOOP)
+                with qcore.override(
+                    self.scopes.current_scope(),
+                    "name_to_current_definition_nodes",
+                    leaving_scope,
+                ):
+                    self._generic_visit_list(node.finalbody)
+                leaving_scope[LEAVES_LOOP] = marker
+                self.scopes.current_scope().leave_loop(leaving_scope)
 
             # If the try block fails
             with self.scopes.subscope():
